@@ -151,7 +151,7 @@ func init() {
 		Technique: "property-based testing (rapid): generated macro libraries and calls through _self, import alias and from-import vs reference evaluator",
 		Rule: "macro definitions with 0-4 parameters; calls with 0-6 arguments through _self, an import alias and from-import (plain and renamed); local macros calling lower-numbered local macros; calls inside loops, captures, filters, concatenations and other calls' arguments; results printed, assigned and passed on; the same macro through two forms with equal arguments; unknown macro of an imported set; who() in macro bodies. " +
 			"Oracle: reference evaluator (positional binding, missing -> null, surplus ignored, result is a string value, unknown macro through an alias -> error, who() = defining template). " +
-			"Non-trivial: an arity mismatch occurred, or a macro was called through >= 2 forms, or its result was used as a value; distinct by program. Also: the caller has variables named like the callees' parameters; unknown-macro calls inside argument lists of macros, functions and filters; a local macro named like a from-import; large instances (900 macros in a library, 70 parameters).",
+			"Non-trivial: an arity mismatch occurred, or a macro was called through >= 2 forms, or its result was used as a value; distinct by program. Also: the caller has variables named like the callees' parameters; unknown-macro calls inside argument lists of macros, functions and filters; a local macro named like a from-import; an import and from-import of a library named by a loop variable (two libraries defining the same macros differently); results assigned outside the blocks of an extending caller (plain and under if) and printed inside them; large instances (900 macros in a library, 70 parameters).",
 		Assumptions: []string{"reference evaluator trusted; imported macros do not use _self (excluded by the statement)"},
 	}
 	sub := modelSub(p, "macro", compareOpts{}, func(cs *progCase, res *m.Result) bool {
